@@ -80,3 +80,44 @@ def _norm_nums(s):
         return ",".join(sval(float(x)) for x in s.split(",") if x != "")
     except ValueError:
         return s
+
+
+def random_scenarios(n):
+    """beyond the model's bounds: up to 6 measures, row counts incl. 20/28/36/192, 3 tempo changes on the 1/48 grid"""
+    r = rng("c02-random")
+    out = []
+    types = list(KEYS)
+    for i in range(n):
+        typ = r.choice(["dance-single", "dance-threepanel", "dance-solo", "kb7-single", "dance-double"])
+        keys = KEYS[typ]
+        rows = [r.choice([4, 8, 12, 16, 20, 24, 28, 36, 48, 192]) for _ in range(r.randint(1, 6))]
+        total = sum(rows)
+        occupied, objs, busy_until = set(), [], {}
+        for _ in range(r.randint(1, 10)):
+            k = r.choice(["1", "1", "M", "L", "F", "K", "2", "4"])
+            c = r.randrange(keys)
+            i0 = r.randrange(total)
+            if (i0, c) in occupied or i0 <= busy_until.get(c, -1):
+                continue
+            if k in ("2", "4"):
+                j = i0 + r.randint(1, max(1, min(40, total - 1 - i0)))
+                if j >= total or any((x, c) in occupied for x in range(i0, j + 1)):
+                    continue
+                # nothing else may sit inside an open long note of the column, and long notes must not interleave
+                if any(o["c"] == c and not (o["j"] < i0 or o["i"] > j) for o in objs):
+                    continue
+                objs.append({"k": k, "c": c, "i": i0, "j": j})
+                occupied.add((i0, c)); occupied.add((j, c))
+            else:
+                if any(o["c"] == c and o["k"] in ("2", "4") and o["i"] < i0 < o["j"] for o in objs):
+                    pass
+                objs.append({"k": k, "c": c, "i": i0, "j": i0})
+                occupied.add((i0, c))
+        objs.sort(key=lambda o: o["i"])
+        nb = r.randint(1, 4)
+        ps = sorted(r.sample(range(1, 4 * 48 * len(rows)), nb - 1))
+        bpms = [{"p48": 0, "bl": r.choice([50000, 25000, 37500, 30000, 75000])}] + \
+               [{"p48": p, "bl": r.choice([50000, 25000, 37500, 30000, 75000])} for p in ps]
+        out.append({"id": f"r{i}", "type": typ, "rows": rows, "objs": objs, "bpms": bpms,
+                    "off": r.choice([0, -50000, 125000, 3300]), "variant": i, "second_chart": r.choice([None, "dance-single", "kb7-single"])})
+    return out
